@@ -10,6 +10,7 @@ theorem tie_fn_remember_Middleware : Generated.fn_remember_Middleware = Expected
 theorem tie_fn_remember_Authenticate : Generated.fn_remember_Authenticate = Expected.fn_remember_Authenticate := rfl
 theorem tie_fn_remember_Remember_AfterPasswordReset : Generated.fn_remember_Remember_AfterPasswordReset = Expected.fn_remember_Remember_AfterPasswordReset := rfl
 theorem tie_fn_remember_GenerateToken : Generated.fn_remember_GenerateToken = Expected.fn_remember_GenerateToken := rfl
+theorem tie_fn_remember_halfAuthState_Get : Generated.fn_remember_halfAuthState_Get = Expected.fn_remember_halfAuthState_Get := rfl
 theorem tie_consts_remember : Generated.consts_remember = Expected.consts_remember := rfl
 theorem tie_eventRegs_remember : Generated.eventRegs_remember = Expected.eventRegs_remember := rfl
 theorem tie_stateCalls_remember : Generated.stateCalls_remember = Expected.stateCalls_remember := rfl
